@@ -151,6 +151,8 @@ def _mul_mono(m1, m2):
 
 def fmt_atom(a) -> str:
     if isinstance(a, tuple):
+        if not a or not isinstance(a[0], str):
+            return "(" + ", ".join(fmt_atom(x) for x in a) + ")"
         if a[0] == "sym":
             return a[1]
         if a[0] == "attr":
